@@ -135,7 +135,8 @@ def run_c03(tier):
             params[n] = val
         doc = {"meta": meta, "parameters": params}
         if with_service:
-            doc["services"] = {"s1": {"constructor": "fx.NewA", "arguments": [batch[i].text for i in with_service]}}
+            doc["services"] = {"s1": {"constructor": "fx.NewA", "arguments": [batch[i].text for i in with_service], "tags": ["dt"]}}
+            doc["decorators"] = [{"tag": "dt", "decorator": "fx.Decorate", "arguments": [batch[i].text for i in with_service]}]
         return concretise.emit(doc, rng) + "\n"
 
     # ---- phase A: build-time verdict per string
@@ -254,13 +255,18 @@ def run_c03(tier):
             so = rr["res"][len(batch)]
             if "ok" in so:
                 heap = rr["heap"]
-                body = heap.get(str(so["ok"].get("id")))
-                if body:
+                deco = heap.get(str(so["ok"].get("id")))          # the decorator's object; its payload holds the service
+                inner = heap.get(str(((deco or {}).get("payload") or {}).get("svc", {}).get("id"))) if deco else None
+                for where, body in (("decorator", deco), ("constructor", inner)):
+                    if not body:
+                        v.disagree("pattern-arguments-not-observable", {"batch": bi}, {"where": where})
+                        continue
                     for pos, i in enumerate(jobs[bi]["_svc"]):
                         want = batch[i].expected(decl)
                         got = observed_lit(body["args"][pos])
                         if got != want:
-                            v.disagree("argument-value", {"string": batch[i].text, "symbols": batch[i].sym}, {"expected": want, "observed": got})
+                            v.disagree("argument-value", {"string": batch[i].text, "symbols": batch[i].sym, "position": where},
+                                       {"expected": want, "observed": got})
             else:
                 v.disagree("service-with-pattern-arguments-fails", {"batch": bi}, {"observed": so})
         shutil.rmtree(pb.dir, ignore_errors=True)
